@@ -427,6 +427,14 @@ func (g *gen) tx(sess int, solo bool) *TxPlan {
 		n = 2 + r.IntN(3)
 		p.Rollback = (p.Mode == "block" || p.Mode == "steps") && r.IntN(7) == 0
 	}
+	if p.Mode != "auto" && r.IntN(6) == 0 {
+		for _, at := range g.tables {
+			if at.Auto {
+				g.mixTx(p, at)
+				return p
+			}
+		}
+	}
 	t := g.tables[r.IntN(len(g.tables))]
 	for i := 0; i < n; i++ {
 		if r.IntN(4) == 0 {
@@ -446,6 +454,63 @@ func (g *gen) tx(sess int, solo bool) *TxPlan {
 	// an auto-increment table gets either generated or explicit keys within one transaction
 	g.separateAutoKeys(p)
 	return p
+}
+
+// mixTx: one transaction writes rows with explicit keys at or just above the table's largest key and rows
+// with generated keys into the same auto-increment table (the explicit key is bound at run time to
+// <largest live key> + k). Whatever the engine decides about the explicit key, a generated key must not
+// land on a live row - the transaction's own rows included - and every row of a committed transaction stays.
+func (g *gen) mixTx(p *TxPlan, t *Table) {
+	r := g.r
+	p.Mix, p.Rollback = true, false
+	tagBase := func() string { return fmt.Sprintf("s%d.t%d.q%d", p.Sess, p.Seq, len(p.Stmts)) }
+	stripID := func(s *Stmt) {
+		for j, cn := range s.Cols {
+			if cn == t.PK[0] {
+				s.Cols = append(s.Cols[:j:j], s.Cols[j+1:]...)
+				for i := range s.Rows {
+					s.Rows[i] = append(s.Rows[i][:j:j], s.Rows[i][j+1:]...)
+				}
+				return
+			}
+		}
+	}
+	explicit := func(off int64) {
+		s := g.insertStmt(t, pick(r, "insert", "insert", "upsert"), "auto-collide", tagBase(), 1)
+		for j, cn := range s.Cols {
+			if cn == t.PK[0] {
+				s.Rows[0][j] = Val{K: 'r', I: off}
+			}
+		}
+		s.Aim = "auto-collide"
+		p.Stmts = append(p.Stmts, s)
+	}
+	generated := func(rows int) {
+		s := g.insertStmt(t, pick(r, "insert", "insert", "insert", "insert-nothing", "insert-update"), "", tagBase(), rows)
+		stripID(s)
+		s.Aim = "auto-collide"
+		p.Stmts = append(p.Stmts, s)
+	}
+	k := 1 + r.IntN(3)
+	switch r.IntN(3) {
+	case 0: // explicit key first; the k-th generated key reaches it
+		explicit(int64(k))
+		generated(k + r.IntN(2))
+	case 1: // generated keys, then an explicit key equal to the next one, then a generated key
+		if k > 1 {
+			generated(k - 1)
+		}
+		explicit(int64(k))
+		generated(1 + r.IntN(2))
+	default: // explicit key far enough above: nothing collides, every row must survive
+		explicit(int64(k + 3 + r.IntN(3)))
+		generated(1 + r.IntN(3))
+	}
+	if r.IntN(3) == 0 && len(g.tables) > 1 {
+		if o := g.tables[r.IntN(len(g.tables))]; o != t {
+			p.Stmts = append(p.Stmts, g.dmlStmt(o, tagBase(), ""))
+		}
+	}
 }
 
 // pinKey makes an insert target the key named by an equality WHERE (delete then re-insert).
@@ -472,6 +537,9 @@ func (g *gen) pinKey(t *Table, s *Stmt, where []Term) {
 }
 
 func (g *gen) separateAutoKeys(p *TxPlan) {
+	if p.Mix {
+		return
+	}
 	mode := map[string]string{}
 	var keep []*Stmt
 	for _, s := range p.Stmts {
